@@ -53,7 +53,7 @@ func checkC03(c *Ctx) {
 var oddIDs = []string{"\u3000leading-ideographic-space-%d", "trailing-nbsp-%d\u00a0", "\ttab-%d\t", " both-%d ", "line\nbreak-%d", "sep\u2028-%d", "\u00a0%d\u3000", "UPPER-lower-%d", "../up-%d", "0%d", "+%d", " %d", "dot.%d."}
 
 func c03Payload(r *sched.Rng, kind int) []byte {
-	switch kind % 7 {
+	switch kind % 8 {
 	case 0:
 		return []byte{0x00}
 	case 1:
@@ -66,6 +66,8 @@ func c03Payload(r *sched.Rng, kind int) []byte {
 		return []byte("duplicate payload")
 	case 5:
 		return []byte("ünïcødé → 漢字   end")
+	case 6:
+		return []byte{} // an empty file: still an explicit payload (zero bytes), not a range
 	}
 	return r.Bytes(1 + r.Intn(300))
 }
@@ -83,7 +85,7 @@ func runC03Proposal(c *Ctx, ce *Ceremony, poly *share.PubPoly, r *sched.Rng, wi,
 			if r.Intn(3) == 0 {
 				name = fmt.Sprintf(oddIDs[r.Intn(len(oddIDs))], i)
 			}
-			spec.Data[name] = c03Payload(r, r.Intn(7))
+			spec.Data[name] = c03Payload(r, r.Intn(8))
 		}
 		shape = fmt.Sprintf("api-explicit-%d", k)
 	case 1: // API, baked range
@@ -120,7 +122,7 @@ func runC03Proposal(c *Ctx, ce *Ceremony, poly *share.PubPoly, r *sched.Rng, wi,
 					id = fmt.Sprintf(oddIDs[r.Intn(len(oddIDs))], i)
 					shape += "o"
 				}
-				tasks = append(tasks, requests.SigningTask{MessageID: id, File: fileNames[r.Intn(len(fileNames))], Payload: c03Payload(r, r.Intn(7))})
+				tasks = append(tasks, requests.SigningTask{MessageID: id, File: fileNames[r.Intn(len(fileNames))], Payload: c03Payload(r, r.Intn(8))})
 				shape += "X"
 			}
 		}
@@ -156,6 +158,9 @@ func runC03Proposal(c *Ctx, ce *Ceremony, poly *share.PubPoly, r *sched.Rng, wi,
 	for _, e := range exp {
 		expByID[e.ID] = e
 		ids = append(ids, e.ID)
+		if len(e.Payload) == 0 {
+			c.Add("messages_with_a_zero_byte_payload", 1)
+		}
 	}
 	judged := 0
 	// (a) partial signatures on the board
